@@ -22,7 +22,9 @@ THEOREMS = ["C07_exactly_once", "C07_matches_spec", "C07_broadcast_delivery", "C
             "C07_no_fault", "C07_dispatch_total", "C07_rule_equal", "C07_remove",
             "C07_remove_single_reply", "C07_remove_not_found", "C07_remove_failure_keeps", "C07_disconnect_clears", "C07_disconnect_keeps", "C07_reachable_inv",
             "C07_tokenize_exact", "C07_tokenize_partial", "C07_parse_items", "C07_parse_partial", "C07_parse_refuted",
-            "C07_parse_refuted_token_cap", "C07_parse_refuted_backslash", "C07_parse_refuted_arg_key", "C07_parse_refuted_unique_name"]
+            "C07_parse_refuted_token_cap", "C07_parse_refuted_backslash", "C07_parse_refuted_arg_key", "C07_parse_refuted_unique_name",
+            "C07_index_step", "C07_index_history", "C07_index_recipients", "C07_abs_injective", "C07_rule_equal_spec",
+            "C07_remove_match_spec", "C07_owner_change_keeps_rules"]
 
 UNIQ = {"{U1}": ":1.1", "{U2}": ":1.2", "{U3}": ":1.3", "{U9}": ":1.99999"}
 
@@ -254,11 +256,14 @@ def _run_sc(arg):
 
 
 def canon(x):
-    for tag in (" x=", " st="):
+    for tag in (" x=", " st=", " ix="):
         if tag in x:
             x = x[:x.index(tag)]
     if x[:2] in ("D ", "S ") and x[2:] != "-":
         return x[:2] + ",".join(sorted(x[2:].split(","), key=int))
+    if x[:1] == "O" and " " in x and not x.endswith(" -"):
+        h, l = x.split(" ", 1)
+        return h + " " + ",".join(sorted(l.split(","), key=int))
     if x in ("N", "U", "J", "K"):
         return "D -"
     if x.startswith("G ") and x != "G -":
@@ -435,11 +440,14 @@ def run(ctx):
         for j, o in enumerate(obs):
             n_events += 1
             m_raw, s_raw = split_ms(mo[j])
+            if " ix=0" in m_raw:
+                rep.violation("indexed and flat matchmaker models disagree at `%s` (%s)" % (ml[j][:200], m_raw),
+                              {"scenario": sc, "event_index": j, "event": ml[j], "names": "Match.Index.istep vs Match.Bus.step (C07_index_history)"}, found_input=False)
             m = canon(m_raw)
             o = canon(o)
             op = ml[j].split()[0]
             dist["e2e " + op] = dist.get("e2e " + op, 0) + 1
-            if o not in ("D -", "S -", "R invalid"):
+            if o not in ("D -", "S -", "R invalid", "O1 -", "O2 -"):
                 nontrivial.add((start, j))
             replay = {"scenario": sc, "event_index": j, "event": ml[j], "impl": o, "model": m, "spec": s_raw, "daemon_exit": rc, "stderr": err[-1500:]}
             if o.startswith("?"):
@@ -535,5 +543,5 @@ def run(ctx):
     })
     rep.assumptions = ["bus runs with an allow-all policy and uid 0 (callers are privileged: eavesdrop='true' is permitted)",
                        "strtoul as in glibc 2.36 (no 0b prefix), C locale; unsigned long is 64 bit",
-                       "the per-pool hash tables of BusMatchmaker are modelled as filtered views of one insertion-ordered list",
+                       "BusMatchmaker's per-type pools and per-interface hash tables are modelled one to one (Match/Index.v) and proved equivalent to one insertion-ordered list for every history; a hash table is an association list (hash order unobservable)",
                        "rule texts contain no NUL byte (they arrive as D-Bus STRING values)"]
